@@ -41,4 +41,44 @@ theorem round_expr (r k : Nat) (hk : k ≤ 64) (h : r + 2 ^ k - 1 < 2 ^ 64) :
 theorem sub_mod_eq_mul_div (x p : Nat) : x - x % p = p * (x / p) := by
   have := Nat.div_add_mod x p; omega
 
+/-- retry combinator: `n` interrupted calls followed by a call with any other outcome `(r, e)`
+    give exactly `final r e` after `n + 1` calls, whatever the script holds afterwards -/
+theorem retry_eintr (final : Int → Int → Out) (n : Nat) (r e : Int) (rest : List (Int × Int))
+    (h : ¬(r = -1 ∧ e = EINTR)) :
+    retryEintr final (List.replicate n (-1, EINTR) ++ (r, e) :: rest) = some (final r e, n + 1) := by
+  induction n with
+  | zero => simp [retryEintr, h]
+  | succ n ih => simp [List.replicate_succ, retryEintr, ih]
+
+/-- the loop never returns on interruptions alone -/
+theorem retry_only_eintr (final : Int → Int → Out) (n : Nat) :
+    retryEintr final (List.replicate n (-1, EINTR)) = none := by
+  induction n with
+  | zero => rfl
+  | succ n ih => simp [List.replicate_succ, retryEintr, ih]
+
+/-- whenever the loop returns, it returns the decision on the LAST call made, that call was
+    not an interruption, and every earlier call was one -/
+theorem retry_returns_last (final : Int → Int → Out) (script : List (Int × Int)) (o : Out) (k : Nat)
+    (h : retryEintr final script = some (o, k)) :
+    ∃ r e rest, script = List.replicate (k - 1) (-1, EINTR) ++ (r, e) :: rest ∧ 0 < k ∧
+      ¬(r = -1 ∧ e = EINTR) ∧ o = final r e := by
+  induction script generalizing o k with
+  | nil => simp [retryEintr] at h
+  | cons hd tl ih =>
+    obtain ⟨r, e⟩ := hd
+    by_cases hc : r = -1 ∧ e = EINTR
+    · simp only [retryEintr, hc, and_self, if_true, Option.map_eq_some_iff] at h
+      obtain ⟨⟨o', k'⟩, h1, h2⟩ := h
+      simp only [Prod.mk.injEq] at h2
+      obtain ⟨rfl, rfl⟩ := h2
+      obtain ⟨r', e', rest, hs, hk, hne, ho⟩ := ih o' k' h1
+      refine ⟨r', e', rest, ?_, by omega, hne, ho⟩
+      have : k' + 1 - 1 = (k' - 1) + 1 := by omega
+      rw [this, List.replicate_succ, hc.1, hc.2, hs]
+      simp
+    · simp only [retryEintr, hc, if_false, Option.some.injEq, Prod.mk.injEq] at h
+      obtain ⟨rfl, rfl⟩ := h
+      exact ⟨r, e, tl, by simp, by omega, hc, rfl⟩
+
 end UvModel.ThreadArith
